@@ -16,6 +16,7 @@ def gen_models(ctx, n, pid=None):
                                      max_types=rng.choice([2, 3, 4]), max_rels=rng.choice([2, 3, 4]), depth=rng.choice([1, 2, 2]),
                                      wildcards=wc))
     ms += handmade()
+    ms += wide_models(rng, 4 if n < 1000 else 20)
     if pid == "C11":
         ms += wild_cycles(rng, max(40, n // 6))
         ms += wild_cycles_below_subtraction(rng, max(40, n // 6))
@@ -74,6 +75,26 @@ def constrained_cycles(rng, n):
         order = list(zip(rl, ml))
         rng.shuffle(order)
         types = [[S("user"), [], []], [S("doc"), [x[0] for x in order], [[[x[1] for x in order], [], []]]]]
+        out.append([S("1.1"), types, []])
+    return out
+
+
+def wide_models(rng, n):
+    """many type definitions (17-26, beyond any small-size fast path), in no particular name order, linked by
+    tuple-to-usersets: look-ups over the whole list of type definitions must neither reorder it nor depend on its order"""
+    out = []
+    for _ in range(n):
+        k = rng.randint(17, 26)
+        names = ["t%02d" % i for i in range(k)]
+        rng.shuffle(names)
+        types = [[S("user"), [], []]]
+        for i, t in enumerate(names):
+            par = names[(i + rng.randint(1, k - 1)) % k]
+            rl = [[S("parent"), [1, 1]], [S("viewer"), rng.choice([[4, [1, 1], [3, S("parent"), S("viewer")]], [1, 1], [4, [1, 1], [2, S("parent")]]])]]
+            ml = [[S("parent"), [[[S(par), [0], []]], [], []]], [S("viewer"), [[[S("user"), [0], []]], [], []]]]
+            types.append([S(t), rl, [[ml, [], []]]])
+        pos = rng.randrange(len(types))
+        types.insert(pos, types.pop(0))
         out.append([S("1.1"), types, []])
     return out
 
@@ -341,6 +362,26 @@ def variants(ctx, m):
     return [m[0], ts, m[2]]
 
 
+def operand_variant(ctx, m):
+    """the same model with the operands of every union and intersection in another order (C06: "reordering the operands
+    of a union or intersection changes no relation's weights"); exclusions keep their order"""
+    rng = ctx.rng
+
+    def sh(u):
+        if u[0] in (4, 5):
+            kids = [sh(c) for c in u[1:]]
+            rng.shuffle(kids)
+            return [u[0]] + kids
+        if u[0] == 6:
+            return [6, sh(u[1]), sh(u[2])]
+        return u
+    return [m[0], [[t[0], [[r[0], sh(r[1])] for r in t[1]], t[2]] for t in m[1]], m[2]]
+
+
+def relation_weights(g):
+    return {nid: sorted(n["weights"]) for nid, n in g["nodes"].items() if n["type"] == 1}
+
+
 def weights_of(g, nid):
     return dict(g["nodes"].get(nid, {}).get("weights", []))
 
@@ -459,6 +500,27 @@ def evaluate(ctx, pid, results):
                 else:
                     ctx.violation("nondeterministic", {"model": m, "why": "%d different outcomes over %d builds (explicit start orders, repeated Build, permuted type definitions)" % (len(distinct), len(allr)),
                                                        "outcomes": [str(d)[:400] for d in distinct[:3]], "cycle_info": ci})
+            elif r.get("opvariant") and len(distinct) == 1:
+                # operands of unions / intersections in another order: same verdict, same weights of every relation
+                base = distinct[0]
+                for (vm, a) in r["opvariant"]:
+                    ctx.count("operand_orders_compared")
+                    bad = None
+                    if a[0] != base[0] and (a[0] == "ok" or base[0] == "ok"):
+                        bad = "the model is %s, with the operands of its unions/intersections reordered it is %s" % (
+                            "accepted" if base[0] == "ok" else "rejected", "accepted" if a[0] == "ok" else "rejected")
+                    elif a[0] == "ok" and relation_weights(a[1]) != relation_weights(base[1]):
+                        diff = [k for k in relation_weights(base[1]) if relation_weights(a[1]).get(k) != relation_weights(base[1])[k]]
+                        bad = "reordering the operands of unions/intersections changes the weights of %s: %s -> %s" % (
+                            diff[0], relation_weights(base[1])[diff[0]], relation_weights(a[1]).get(diff[0]))
+                    if bad:
+                        if known_cyc:
+                            ctx.count("known_finding_K-WG-cycles")
+                        elif known_ops or not gs.simple_operands(vm):
+                            ctx.count("known_finding_K-C04-operands" if core.finding_listed(ctx, "K-C04-operands") else "operand_order_outside_domain")
+                        else:
+                            ctx.violation("operand-order", {"model": m, "reordered": vm, "why": bad})
+                        break
             elif len(ctx.samples) < 3 and nontriv:
                 ctx.sample({"model": m, "builds_compared": len(allr)})
         elif pid == "C11":
@@ -496,7 +558,7 @@ def evaluate(ctx, pid, results):
 RULES = {
     "C04": "weights of every relation node against the maximum tuple-hop depth computed on the model (least fixed point), the edge rule on every edge, no placeholder key",
     "C05": "accept/reject per depth-first start order against well-foundedness computed on the model",
-    "C06": "all outcomes of one model compared: explicit start orders (insertion, reversed, random), the unhooked Build repeated, permuted type definitions; histories: one builder object building sequences of different models, sequentially and concurrently, against a fresh builder per model",
+    "C06": "all outcomes of one model compared: explicit start orders (insertion, reversed, random), the unhooked Build repeated, permuted type definitions; the operands of unions/intersections reordered (verdict and weights of every relation); histories: one builder object building sequences of different models, sequentially and concurrently, against a fresh builder per model",
     "C10": "graph structure decoded and compared with the model: node inventory, operand edges in source order, edge kinds, labels, conditions; the input model unchanged",
     "C11": "wildcard lists of nodes and edges against reachability of T:* nodes in the built graph, and duplicate-freedom",
 }
@@ -524,6 +586,11 @@ def run_for(ctx, pid):
         for r, v in zip(res, vres):
             if r is not None and v is not None:
                 r["variant"] = [a for (_, a, _) in v["ordered"]]
+        ovs = [operand_variant(ctx, m) for m in models]
+        ores = gc.run_graph(ctx, ovs, n_orders=2, repeat=1, label="operands-reordered")
+        for r, vm, v in zip(res, ovs, ores):
+            if r is not None and v is not None and vm != r["m"]:
+                r["opvariant"] = [(vm, a) for (_, a, _) in v["ordered"]]
     # the unhooked Build must give one of the hooked outcomes (hook drift)
     for r in res:
         if r is None:
